@@ -194,6 +194,25 @@ func merge[EntityT entity.Interface](def Definition, wrapper func(e *Entity) Ent
 		return entity.NewMergeUpdatedStatus(id, remoteEntity)
 	}
 
+	// Both histories are valid on their own and named after the same entity, but that doesn't make them
+	// two branches of one history: they must share at least their root commit. Joining unrelated histories
+	// would create an entity with several roots, which can't be read anymore.
+	related := false
+	localSet := make(map[repository.Hash]struct{}, len(localCommits))
+	for _, hash := range localCommits {
+		localSet[hash] = struct{}{}
+	}
+	for _, hash := range remoteCommits {
+		if _, ok := localSet[hash]; ok {
+			related = true
+			break
+		}
+	}
+	if !related {
+		return entity.NewMergeInvalidStatus(id,
+			fmt.Sprintf("remote %s has no common history with the local one", def.Typename))
+	}
+
 	// SCENARIO 5
 	// if both local and remote Entity have new commits (that is, we have a concurrent edition),
 	// a merge commit with an empty operationPack is created to join both branch and form a DAG.
